@@ -15,6 +15,8 @@ R07.5 "errorcode and errorlevel are set exactly where the rule is false": for ea
 R07.6 an errorcode / errorlevel that the rule declares is emitted as that value - 0 and "" are values; only a rule without
       one yields NULL: the helper every erCode / erLevel / error_code / error_level is translated through is evaluated (E6) over
       {None, 0, "", 1, 2.5, "E1"}
+R07.7 check(): Check.validate, StructureVisitor._build_validation_structure and the SELECT list of visit_Validation are evaluated (E6)
+      on a Boolean dataset with a viral attribute and must name the same components (known finding: the viral attribute)
 Not decided: the values of the rule expressions themselves; hierarchy's rule ordering (HRDAGAnalyzer).
 """
 from __future__ import annotations
@@ -226,6 +228,49 @@ def run(rep: Report, tier: str) -> None:  # noqa: C901
                 rep.add(transp.fnd("R07.6", f"{h}/{value!r}", hf, hf.node.lineno,
                                    f"{h}({value!r}) gives `{got}`: " + ("a rule without errorcode/errorlevel must leave the column NULL" if value is None else
                                                                      f"the declared value {value!r} (a legal errorcode / errorlevel) is replaced by NULL, so failing datapoints are reported without it")))
+    # ---- R07.7 check(): components declared by Check.validate == structure builder == SELECT list ----
+    rep.rule("R07.7", "check: components semantic analysis declares == the transpiler's intermediate structure == the columns the generated SELECT delivers")
+    from sa.e6 import ClassVal
+    M7 = sm.Model(P)
+
+    def DB() -> "sm.MDS":
+        d = M7.ds("DS_b", ["A", "B"], [], ["V"], [])
+        d.components["bool_var"] = sm.MComp("bool_var", M7.roles["MEASURE"], ClassVal("vtlengine.DataTypes.Boolean"))
+        return d
+    try:
+        ca, cb = sm.check_interpreter(M7, DB()), sm.check_visitor(M7, DB())
+    except Unmodelled as e:
+        raise AnalysisError(f"R07.7: construct outside the evaluator's language: {e}")
+    if ca[0] != "ok":
+        raise AnalysisError(f"R07.7: Check.validate rejects a Boolean dataset in the model: {ca}")
+    want = sorted(n for n, _r in sm.comp_summary(ca[1]))
+    gotb = sorted(n for n, _r in sm.comp_summary(cb[1])) if cb[0] == "ok" and cb[1] is not None else None
+    # SELECT list of visit_Validation: evaluated with the inner query opaque
+    vv = P.func(f"{TR}.visit_Validation")
+    node = sm.MNode("Validation", op="check", validation=sm.MNode("VarID", value="INNER"), error_code=None, error_level=None, imbalance=None, invalid=False)
+    it = Interp(P, externals={"self.visit": lambda x: "⟦inner⟧", "self._stash_assignment": lambda: None, "self._error_code_sql": lambda v: "⟦code⟧",
+                              "self._get_dataset_structure": lambda x: DB(), "quote_name": lambda n: f'"{n}"', "isinstance": sm._isinstance})
+    try:
+        txt = str(it.call(vv, {"self": sm.MTranspiler(), "node": node}))
+    except (Unmodelled, Raised) as e:
+        raise AnalysisError(f"R07.7: visit_Validation outside the evaluator's language: {e}")
+    msel = re.match(r"SELECT (.*?) FROM \(⟦inner⟧\)", txt, re.S)
+    gots = None
+    if msel:
+        gots = []
+        for item in sm._split_top(msel.group(1)):
+            mm = re.search(r'AS "([^"]+)"\s*$', item.strip())
+            gots.append(mm.group(1) if mm else item.strip().split(".")[-1].strip('"'))
+        gots = sorted(gots)
+    rep.instance("R07.7", "check/components", sample={"declared": want, "structure_visitor": gotb, "sql": gots})
+    fbv = P.func(f"{sm.SV}._build_validation_structure")
+    if gots != want:
+        rep.add(transp.fnd("R07.7", "check/sql-columns", vv, vv.node.lineno,
+                           f"check(DS_b) on DS_b(ids A,B; bool_var; viral V): semantic analysis declares the components {want} but the generated SELECT delivers {gots}: the returned Dataset "
+                           f"declares components its data does not have"))
+    if gotb != want:
+        rep.add(transp.fnd("R07.7", "check/structure", fbv, fbv.node.lineno,
+                           f"check(DS_b): semantic analysis declares {want} but the transpiler's structure of the intermediate result is {gotb}"))
     rep.assumptions = ["SQL three-valued logic (Kleene) for AND/OR/NOT, IS [NOT] FALSE, CASE", "the pivot column naming helpers _has_col / _val_col are the only producers of those names"]
 
 
